@@ -185,9 +185,73 @@ def step (_ : Unit) (toks : List String) : Unit × String :=
     match findEntry name, hex? h with
     | some e, some bs =>
       match fromVecTyped L e bs with
+      | .err => ((), "err")
+      | .panic => ((), "panic")
+      | .ok v => ((), " ".intercalate ("ok" :: render e.ty v))
+    | _, _ => ((), "bad-op")
+  | "fenc" :: name :: vt =>
+    match findEntry name with
+    | none => ((), "bad-op")
+    | some e =>
+      match parseVal e.ty vt with
+      | some (v, []) =>
+        if !shape e.ty v then ((), "bad-op")
+        else if !encOk L e.ty v then ((), "panic")
+        else ((), toHex (writeVec (asVec L e v)))
+      | _ => ((), "bad-op")
+  | ["fdec", h] =>
+    match hex? h with
+    | none => ((), "bad-op")
+    | some bs =>
+      let reg := regOf false
+      match readFrame L reg Gen.WireSchema.maxMessageSize bs with
+      | .error e => ((), errClass e)
+      | .ok (.unknown id) => ((), s!"unknown {id}")
+      | .ok (.msg i v) =>
+        match reg[i]? with
+        | none => ((), "bad-op")
+        | some e => ((), " ".intercalate ("ok" :: e.name :: render e.ty v))
+  | ["ftyped", name, h] =>
+    match findEntry name, hex? h with
+    | some e, some bs =>
+      match readMessageTyped L Gen.WireSchema.maxMessageSize e bs with
       | none => ((), "err")
       | some v => ((), " ".intercalate ("ok" :: render e.ty v))
     | _, _ => ((), "bad-op")
+  | ["raw", h] =>
+    match hex? h with
+    | none => ((), "bad-op")
+    | some bs =>
+      match readRaw bs with
+      | none => ((), "err")
+      | some b => ((), "ok " ++ toHex b)
+  | ["srh", seq, peer, dbid] =>
+    match nat? seq, hex? peer, nat? dbid with
+    | some seq, some peer, some dbid => ((), toHex (writeSerialRequest seq peer dbid))
+    | _, _, _ => ((), "bad-op")
+  | ["srhdec", h] =>
+    match hex? h with
+    | none => ((), "bad-op")
+    | some bs =>
+      match readSerialRequest bs with
+      | none => ((), "err")
+      | some (s, p, d) => ((), s!"ok {s} {toHex p} {d}")
+  | ["srp", seq] =>
+    match nat? seq with
+    | some seq => ((), toHex (writeSerialResponse seq))
+    | none => ((), "bad-op")
+  | ["srpdec", h, exp] =>
+    match hex? h, nat? exp with
+    | some bs, some exp => ((), if readSerialResponse bs exp then "ok" else "err")
+    | _, _ => ((), "bad-op")
+  | ["ldk", kind, h] =>
+    -- the LDK `Writeable`/`Readable` adaptors of model.rs write exactly the consensus encoding
+    match hex? h with
+    | none => ((), "bad-op")
+    | some b =>
+      if kind == "octets" then ((), toHex (enc L .octets (.bytes b)))
+      else if kind == "wirestring" then ((), toHex (enc L .wireString (.bytes b)))
+      else ((), toHex b)
   | ["registry", d] =>
     ((), " ".intercalate ((regOf (d == "1")).map fun e => s!"{e.id}:{e.name}"))
   | ["shadowed", d] =>
